@@ -28,12 +28,28 @@ use std::sync::Arc;
 use vharness::common::*;
 
 const BASE: i64 = 1_700_000_000_000;
-const NF: usize = 4; // scalar fields f0..f3 (f3 is a String "s<int>")
-/// model defaults: f0 nullable (absent), f1/f2 Integer with default, f3 String with default "s30"
-const DEFAULTS: [Option<i64>; NF] = [None, Some(70), Some(90), Some(30)];
+const NF: usize = 6; // scalar fields f0..f3 (f3 is a String "s<int>"), Json fields f4 (nullable), f5 (default)
+/// model defaults: f0 nullable (absent), f1/f2 Integer with default, f3 String with default "s30",
+/// f4 Json nullable (absent), f5 Json with default document 9
+const DEFAULTS: [Option<i64>; NF] = [None, Some(70), Some(90), Some(30), None, Some(109)];
+/// the Json documents of the scenarios; the model knows a document only by 100 + its index
+/// (an assigned field takes EXACTLY the assigned document); -1 = null / absent
+const DOCS: [&str; 10] = [
+    r#"{"a":1,"b":2,"tags":["x","y"]}"#,
+    r#"{"a":3}"#,
+    r#"{"a":null,"c":{"d":null,"e":[1,null,{"f":2}]}}"#,
+    r#"["x",{"y":1}]"#,
+    r#"5"#,
+    r#"{"a":{"b":{"c":1,"d":2},"g":[1,2]},"h":"z"}"#,
+    r#"{"a":{"b":{"c":9}}}"#,
+    r#""text""#,
+    r#"{}"#,
+    r#"{"k":0}"#,
+];
 const NTAGS: u64 = 3; // referenced rows t0..t2 (they take the rowids 1..3)
 const MODEL: &str = r#"ns {
     Row { f0: Integer nullable, f1: Integer default 70, f2: Integer default 90, f3: String default "s30",
+          f4: Json nullable, f5: Json default "{\"k\":0}",
           tags: [ns.Tag] nullable, owner: ns.Tag nullable, more: [ns.Tag] nullable }
     Tag { n: Integer nullable }
 }"#;
@@ -59,7 +75,18 @@ enum Ev { R(usize), V(usize), W(usize) }
 type Ids = Vec<(u64, [u8; 16])>; // model row index -> uid
 
 fn mdate_of(i: usize) -> i64 { 1000 * (i as i64 + 1) }
-fn lit(f: u64, v: i64) -> String { if f == 3 { format!("\"s{}\"", v) } else { format!("{}", v) } }
+/// the text of an assigned value; Json documents with an odd index travel as a parameter, the
+/// others as an escaped string literal (both forms of get_mutate_query)
+fn lit(f: u64, v: i64, params: &mut Parameters) -> String {
+    if f == 3 { return format!("\"s{}\"", v); }
+    if f >= 4 {
+        if v < 0 { return "null".to_string(); }
+        let doc = DOCS[(v - 100) as usize];
+        if v % 2 == 1 { let key = format!("j{}", f); params.add(&key, doc.to_string()).unwrap(); return format!("${}", key); }
+        return format!("\"{}\"", doc.replace('\\', "\\\\").replace('"', "\\\""));
+    }
+    format!("{}", v)
+}
 fn id_of(ids: &Ids, row: u64) -> [u8; 16] { ids.iter().find(|p| p.0 == row).map(|p| p.1).unwrap_or(uid_of(999)) }
 
 // ---------------------------------------------------------------- Gallina printing
@@ -111,7 +138,7 @@ fn creation_text(room: Option<u64>, fields: &[(u64, i64)], edges: &[(u64, u64)],
         params.add("room", base64_encode(&uid_of(room))).unwrap();
         body.push_str(" room_id:$room");
     }
-    for (f, v) in fields { body.push_str(&format!(" f{}:{}", f, lit(*f, *v))); }
+    for (f, v) in fields { let t = lit(*f, *v, &mut params); body.push_str(&format!(" f{}:{}", f, t)); }
     for (l, name) in LABELS.iter().enumerate() {
         let ts: Vec<u64> = edges.iter().filter(|e| e.0 == l as u64).map(|e| e.1).collect();
         if ts.is_empty() { continue; }
@@ -153,7 +180,7 @@ fn request_text(m: &Mut, ids: &Ids, tags: &[[u8; 16]]) -> (String, Parameters) {
             let mut body = String::new();
             if m.kind == Kind::Update { params.add("id", base64_encode(&id_of(ids, m.row))).unwrap(); body.push_str(" id:$id"); }
             if let Some(room) = m.room { params.add("room", base64_encode(&uid_of(room))).unwrap(); body.push_str(" room_id:$room"); }
-            for (f, v) in &m.assign { body.push_str(&format!(" f{}:{}", f, lit(*f, *v))); }
+            for (f, v) in &m.assign { let t = lit(*f, *v, &mut params); body.push_str(&format!(" f{}:{}", f, t)); }
             refs_text(m, tags, &mut params, &mut body);
             if body.is_empty() { body.push_str(" f0:null"); }
             (format!("mutate {{ ns.Row {{{} }} }}", body), params)
@@ -367,6 +394,14 @@ fn dump_conn(conn: &Connection, sh: &Shorts, ids: &Ids, tags: &[[u8; 16]]) -> (V
         out.push(node.mdate - BASE);
         let v: serde_json::Value = serde_json::from_str(node._json.as_deref().unwrap_or("{}")).unwrap();
         for f in 0..NF {
+            if f >= 4 {
+                // a Json field: which document of the scenario is stored (exactly), null/absent, or something else
+                out.push(match v.get(&sh.fields[f]) {
+                    Some(serde_json::Value::Null) | None => -1,
+                    Some(stored) => DOCS.iter().position(|d| serde_json::from_str::<serde_json::Value>(d).unwrap() == *stored).map(|k| 100 + k as i64).unwrap_or(-8),
+                });
+                continue;
+            }
             out.push(match v.get(&sh.fields[f]) {
                 Some(serde_json::Value::Number(n)) if f != 3 => n.as_i64().unwrap(),
                 Some(serde_json::Value::String(t)) if f == 3 => t.strip_prefix('s').and_then(|x| x.parse::<i64>().ok()).unwrap_or(-8),
@@ -520,15 +555,16 @@ impl Runner {
 
 // ---------------------------------------------------------------- scenarios
 // f2 keeps its default (90); f1 and f3 hold NON-default values before the schedule
-fn row1() -> RowInit { RowInit { room: Some(1), fields: vec![Some(1), Some(2), None, Some(12)], edges: vec![(0, 0), (1, 0)] } }
+fn row1() -> RowInit { RowInit { room: Some(1), fields: vec![Some(1), Some(2), None, Some(12), Some(100), None], edges: vec![(0, 0), (1, 0)] } }
 fn row_in(room: Option<u64>) -> RowInit { RowInit { room, ..row1() } }
-fn row_free() -> RowInit { RowInit { room: None, fields: vec![Some(1), Some(2), Some(3), Some(12)], edges: vec![(0, 0), (1, 0)] } }
+fn row_free() -> RowInit { RowInit { room: None, fields: vec![Some(1), Some(2), Some(3), Some(12), Some(102), Some(105)], edges: vec![(0, 0), (1, 0)] } }
+fn row_json(j4: Option<i64>, j5: Option<i64>) -> RowInit { RowInit { room: None, fields: vec![Some(1), None, None, None, j4, j5], edges: vec![] } }
 fn m(row: u64, room: Option<u64>, assign: &[(u64, i64)], refs: &[RefOp]) -> Mut { Mut { kind: Kind::Update, row, room, assign: assign.to_vec(), refs: refs.to_vec() } }
 fn mk(row: u64, room: Option<u64>, assign: &[(u64, i64)], refs: &[RefOp]) -> Mut { Mut { kind: Kind::Create, ..m(row, room, assign, refs) } }
 fn md(row: u64) -> Mut { Mut { kind: Kind::Delete, ..m(row, None, &[], &[]) } }
 
 fn directed() -> Vec<(&'static str, Scen)> {
-    let two_rows = vec![row1(), RowInit { room: None, fields: vec![None, Some(5), Some(6), None], edges: vec![(2, 1)] }];
+    let two_rows = vec![row1(), RowInit { room: None, fields: vec![None, Some(5), Some(6), None, None, Some(103)], edges: vec![(2, 1)] }];
     vec![
         // the three witnesses of known finding 1 (C16_refuted_*)
         ("different-fields", Scen { rows: vec![row1()], muts: vec![m(1, None, &[(0, 11)], &[]), m(1, None, &[(1, 22)], &[])] }),
@@ -538,10 +574,16 @@ fn directed() -> Vec<(&'static str, Scen)> {
         ("room-only", Scen { rows: vec![row1()], muts: vec![m(1, Some(2), &[], &[]), m(1, None, &[(1, 22)], &[])] }),
         // fields with defaults / nullable fields holding other values must survive partial updates
         ("partial-updates-keep-other-fields", Scen { rows: vec![row_free()], muts: vec![m(1, None, &[(3, 41)], &[]), m(1, None, &[(0, 11)], &[])] }),
-        ("partial-updates-keep-other-fields-in-room", Scen { rows: vec![RowInit { room: Some(1), fields: vec![Some(4), Some(5), Some(6), Some(7)], edges: vec![] }],
+        ("partial-updates-keep-other-fields-in-room", Scen { rows: vec![RowInit { room: Some(1), fields: vec![Some(4), Some(5), Some(6), Some(7), Some(105), Some(100)], edges: vec![] }],
             muts: vec![m(1, None, &[(1, 71)], &[]), m(1, None, &[(2, 91)], &[RefOp::Set(1, 1)])] }),
+        // Json fields: an assigned document REPLACES the stored one (no merge, nulls inside it are kept)
+        ("json-object-replaced-by-smaller-object", Scen { rows: vec![row_json(Some(100), None)], muts: vec![m(1, None, &[(4, 101)], &[]), m(1, None, &[(0, 11)], &[])] }),
+        ("json-nested-and-null-members", Scen { rows: vec![row_json(Some(105), Some(100))], muts: vec![m(1, None, &[(4, 106)], &[]), m(1, None, &[(5, 102)], &[])] }),
+        ("json-array-and-scalar", Scen { rows: vec![row_json(Some(100), Some(102))], muts: vec![m(1, None, &[(4, 103)], &[]), m(1, None, &[(5, 104), (1, 22)], &[])] }),
+        ("json-null-then-object", Scen { rows: vec![row_json(Some(105), Some(105))], muts: vec![m(1, None, &[(4, -1)], &[]), m(1, None, &[(4, 108), (5, 107)], &[])] }),
+        ("json-same-field-twice", Scen { rows: vec![RowInit { room: Some(1), ..row_json(Some(102), Some(100)) }], muts: vec![m(1, None, &[(5, 106)], &[]), m(1, None, &[(5, 101)], &[])] }),
         // a target already referenced through ANOTHER field is added to an array field / set as single reference
-        ("add-target-referenced-by-other-field", Scen { rows: vec![RowInit { room: None, fields: vec![Some(1), None, None, None], edges: vec![(1, 1)] }],
+        ("add-target-referenced-by-other-field", Scen { rows: vec![RowInit { room: None, fields: vec![Some(1), None, None, None, None, None], edges: vec![(1, 1)] }],
             muts: vec![m(1, None, &[], &[RefOp::Set(1, 2)]), m(1, None, &[], &[RefOp::Add(2, vec![2])])] }),
         ("same-target-in-three-fields", Scen { rows: vec![row1()], muts: vec![m(1, None, &[], &[RefOp::Add(2, vec![0])]), m(1, None, &[], &[RefOp::Set(1, 1), RefOp::Add(0, vec![1]), RefOp::Add(2, vec![1])])] }),
         // mutations REFUSED by the validation: they must leave no trace in any interleaving
@@ -567,15 +609,16 @@ fn directed() -> Vec<(&'static str, Scen)> {
         ("room-move-vs-room-move", Scen { rows: vec![row1()], muts: vec![m(1, Some(2), &[(0, 11)], &[]), m(1, Some(1), &[(0, 12)], &[RefOp::Clear(1)])] }),
         ("different-rows", Scen { rows: two_rows.clone(), muts: vec![m(1, None, &[(0, 11)], &[RefOp::Set(1, 2)]), m(2, Some(1), &[(0, 22)], &[RefOp::Add(0, vec![0])])] }),
         ("unknown-row", Scen { rows: vec![row1()], muts: vec![m(UNKNOWN_ROW, None, &[(0, 11)], &[]), m(1, None, &[(1, 22)], &[])] }),
-        ("no-room", Scen { rows: vec![RowInit { room: None, fields: vec![None, None, None, None], edges: vec![] }], muts: vec![m(1, None, &[(0, 11)], &[RefOp::Set(1, 1)]), m(1, None, &[(1, 22)], &[RefOp::Set(1, 1)])] }),
+        ("no-room", Scen { rows: vec![RowInit { room: None, fields: vec![None, None, None, None, None, None], edges: vec![] }], muts: vec![m(1, None, &[(0, 11)], &[RefOp::Set(1, 1)]), m(1, None, &[(1, 22)], &[RefOp::Set(1, 1)])] }),
     ]
 }
 fn directed3() -> Vec<(&'static str, Scen)> {
-    let two_rows = vec![row1(), RowInit { room: Some(1), fields: vec![None, Some(5), Some(6), Some(8)], edges: vec![(2, 1)] }];
+    let two_rows = vec![row1(), RowInit { room: Some(1), fields: vec![None, Some(5), Some(6), Some(8), Some(101), None], edges: vec![(2, 1)] }];
     vec![
         // the stale update of a deleted row lands on the rowid that a NEW row took over
         ("3-update-delete-create-reuses-rowid", Scen { rows: vec![row1()], muts: vec![m(1, None, &[(0, 11)], &[RefOp::Add(0, vec![1])]), md(1), mk(11, Some(1), &[(0, 5)], &[RefOp::Set(1, 2)])] }),
         ("3-different-fields", Scen { rows: vec![row1()], muts: vec![m(1, None, &[(0, 11)], &[]), m(1, None, &[(1, 22)], &[]), m(1, None, &[(3, 33)], &[])] }),
+        ("3-json-documents", Scen { rows: vec![row_json(Some(100), Some(105))], muts: vec![m(1, None, &[(4, 101)], &[]), m(1, None, &[(5, 106), (4, 102)], &[]), m(1, None, &[(4, -1), (5, 103)], &[])] }),
         ("3-field-reference-room", Scen { rows: vec![row1()], muts: vec![m(1, None, &[(0, 11)], &[]), m(1, None, &[], &[RefOp::Set(1, 1), RefOp::Add(0, vec![2])]), m(1, Some(2), &[(0, 12)], &[RefOp::Clear(0)])] }),
         ("3-two-rows", Scen { rows: two_rows, muts: vec![m(1, None, &[(0, 11)], &[]), m(2, None, &[(0, 22)], &[RefOp::Set(1, 0)]), m(1, None, &[(1, 33)], &[RefOp::Set(1, 2), RefOp::Add(2, vec![2])])] }),
         ("3-refused-between-accepted", Scen { rows: vec![row1()], muts: vec![m(1, None, &[(0, 11)], &[]), m(1, Some(3), &[(1, 22)], &[RefOp::Set(1, 1)]), m(1, None, &[(3, 33)], &[RefOp::Add(0, vec![2])])] }),
@@ -603,7 +646,7 @@ fn gen_scen(rng: &mut Rng, n: usize) -> Scen {
         if rng.chance(1, 2) { edges.push((1, rng.below(NTAGS))); }
         // given values differ from the defaults (70, 90, "s30"); None = nullable absent / default stored
         RowInit { room: match rng.below(8) { 0 | 1 => None, 2 => Some(2), _ => Some(1) },
-                  fields: (0..NF).map(|_| if rng.chance(2, 3) { Some(rng.range(1, 9)) } else { None }).collect(), edges }
+                  fields: (0..NF).map(|f| if !rng.chance(2, 3) { None } else if f >= 4 { Some(100 + rng.below(9) as i64) } else { Some(rng.range(1, 9)) }).collect(), edges }
     }).collect();
     let mut created: Vec<u64> = vec![];
     let muts: Vec<Mut> = (0..n).map(|i| {
@@ -613,7 +656,11 @@ fn gen_scen(rng: &mut Rng, n: usize) -> Scen {
         let kind = match rng.below(20) { 0 | 1 => Kind::Delete, 2 | 3 => Kind::Create, _ => Kind::Update };
         if kind == Kind::Delete { return md(row); }
         let mut assign = vec![];
-        for f in 0..NF as u64 { if rng.chance(1, 4) { assign.push((f, 10 * (i as i64 + 1) + f as i64)); } }
+        for f in 0..NF as u64 {
+            if rng.chance(1, 4) {
+                assign.push((f, if f < 4 { 10 * (i as i64 + 1) + f as i64 } else if f == 4 && rng.chance(1, 5) { -1 } else { 100 + rng.below(DOCS.len() as u64) as i64 }));
+            }
+        }
         let mut used = vec![];
         let mut refs = vec![];
         let prefer = rows.get((row as usize).wrapping_sub(1)).and_then(|r| r.edges.first().map(|e| e.1));
@@ -624,7 +671,7 @@ fn gen_scen(rng: &mut Rng, n: usize) -> Scen {
             refs.retain(|r| !matches!(r, RefOp::Clear(_)));
             return Mut { kind, row: id, room: match rng.below(4) { 0 => None, 1 => Some(2), _ => Some(1) }, assign, refs };
         }
-        if assign.is_empty() && refs.is_empty() && !rng.chance(1, 6) { assign.push((rng.below(NF as u64), 10 * (i as i64 + 1))); }
+        if assign.is_empty() && refs.is_empty() && !rng.chance(1, 6) { assign.push((rng.below(4), 10 * (i as i64 + 1))); }
         // a row that is in a room keeps a room; rows outside rooms are not moved into one here.
         // room 3 (the caller is no member) and room 4 (unknown) make the validation refuse
         let in_room = row > 10 || rows.get((row as usize).wrapping_sub(1)).map(|r| r.room.is_some()).unwrap_or(false);
